@@ -152,7 +152,13 @@ def garbage_ok(text, extending=False):
             first = t.lower()
     if any(ord(ch) > 126 for ch in text):
         return False
-    return (first in HEADER_EXT) if extending else (first not in HEADER_EXT)
+    if extending:
+        # a header-continuing body is parsed at declaration level: a `proc` / `func` keyword in it STARTS a method there, and a
+        # method without end keyword runs to the end of the file (the property's second sentence, checked by kind T)
+        if any(t.lower() in ("proc", "procedure", "func", "function") for t in pc.TOKEN_RE.findall(text)):
+            return False
+        return first in HEADER_EXT
+    return first not in HEADER_EXT
 
 
 def spans_of(lines):
